@@ -180,19 +180,50 @@ pub fn generate(rng: &mut Rng, fault_free: bool) -> K18 {
             lines[i].0 = lines[i - 1].0 + 120_000;
         }
     }
+    // clustered arrivals: with no expiry in play, groups of 2..6 lines (often the first frames of
+    // several aircraft) arrive in ONE segment; frames are judged once the client has caught up
+    let clustered = !fault_free && bulk == 0 && !many && filter_time >= 1000 && rng.chance(0.35);
+    if clustered {
+        let mut i = 0;
+        while i < lines.len() {
+            let g = 1 + rng.usize_below(6);
+            let t0 = lines[i].0;
+            for l in lines.iter_mut().skip(i).take(g) {
+                l.0 = t0;
+            }
+            i += g;
+        }
+    }
     let end_a = lines.last().map(|l| l.0).unwrap_or(0).max(dur_a) + 300_000;
     let ev_gap_scale = if bulk > 0 { 12 } else { 1 };
     // phase A events
     let controls_in_a = !fault_free && rng.chance(0.3);
+    // operator style: hopping between tabs all the time, or dwelling on one tab (Map or Stats)
+    // for seconds and only glancing at the Airplanes tab now and then
+    let dwell: Option<&str> = if !fault_free && rng.chance(0.4) { Some(*rng.pick(&["F1", "F4", "F5"])) } else { None };
     let mut events_a = vec![];
     let mut t = 30_000 + rng.below(200_000);
+    let mut away = false;
     while t < end_a {
-        let ev = match rng.below(10) {
-            0..=2 => key("F3"),
-            3..=4 => key("F4"),
-            5..=7 => key("F1"),
-            8 => key(*rng.pick(&["c:l", "c:n", "c:t", "c:h"])),
-            _ => key(*rng.pick(&["F5", "F2", "Tab"])),
+        let ev = match dwell {
+            Some(home) => {
+                if away {
+                    away = false;
+                    key(home)
+                } else if rng.chance(0.25) {
+                    away = true;
+                    key("F3")
+                } else {
+                    key(home)
+                }
+            }
+            None => match rng.below(10) {
+                0..=2 => key("F3"),
+                3..=4 => key("F4"),
+                5..=7 => key("F1"),
+                8 => key(*rng.pick(&["c:l", "c:n", "c:t", "c:h"])),
+                _ => key(*rng.pick(&["F5", "F2", "Tab"])),
+            },
         };
         // some runs also use view controls while traffic is still flowing: the data shown must
         // not depend on them (map geometry is then only judged again after the reset)
@@ -211,7 +242,7 @@ pub fn generate(rng: &mut Rng, fault_free: bool) -> K18 {
             ev
         };
         events_a.push(KEvent { at_us: t, ev });
-        t += (200_000 + rng.below(900_000)) * ev_gap_scale;
+        t += if dwell.is_some() && away { 150_000 + rng.below(300_000) } else { (200_000 + rng.below(900_000)) * ev_gap_scale * if dwell.is_some() { 3 } else { 1 } };
     }
     // phase B: view controls then reset, then look at the data again
     let mut events_b = vec![];
@@ -304,7 +335,17 @@ pub fn compile(sc: &K18) -> KChild {
             }
         }
     }
-    segments.extend(sc.lines.iter().map(|(t, hex)| KSegment { at_us: *t, hex: wire::hex(format!("*{hex};\n").as_bytes()) }));
+    // lines with the same arrival time travel in one segment
+    let mut i = 0;
+    while i < sc.lines.len() {
+        let t = sc.lines[i].0;
+        let mut text = String::new();
+        while i < sc.lines.len() && sc.lines[i].0 == t {
+            text.push_str(&format!("*{};\n", sc.lines[i].1));
+            i += 1;
+        }
+        segments.push(KSegment { at_us: t, hex: wire::hex(text.as_bytes()) });
+    }
     let connects = vec![KConnect {
         outcome: KOutcome::Accept,
         segments,
@@ -471,6 +512,8 @@ pub fn execute(sc: &K18) -> Outcome {
     let mut centred: Option<(String, i32)> = None;
     let mut centred_at_frame: BTreeMap<u64, Option<(String, i32)>> = BTreeMap::new();
     let mut iters = 0usize;
+    let mut client_consumed = 0usize;
+    let mut connected = false;
     let mut backlog_at_frame: BTreeMap<u64, bool> = BTreeMap::new();
     let mut delivered_lines = 0usize;
     let mut dirty_a = false;
@@ -495,6 +538,11 @@ pub fn execute(sc: &K18) -> Outcome {
                             most = most.max(tr.len() as u32);
                         }
                     }
+                }
+            }
+            LogEv::Connect { what, .. } => {
+                if what.starts_with("accept") {
+                    connected = true;
                 }
             }
             LogEv::Ev { json, .. } => {
@@ -547,8 +595,13 @@ pub fn execute(sc: &K18) -> Outcome {
                 last_frame_k = Some(*k);
                 centred_at_frame.insert(*k, centred.clone());
                 iters += 1;
+                // a client that takes one line per main-loop iteration (the slowest sensible one)
+                // has consumed this many lines by the end of this iteration
+                if connected && client_consumed < delivered_lines {
+                    client_consumed += 1;
+                }
                 // a one-line-per-iteration client has consumed everything delivered by now?
-                backlog_at_frame.insert(*k, sc.bulk > 0 && iters < delivered_lines + 2);
+                backlog_at_frame.insert(*k, client_consumed < delivered_lines);
                 dirty_at_frame.insert(*k, dirty_a);
             }
             _ => {}
@@ -583,7 +636,9 @@ pub fn execute(sc: &K18) -> Outcome {
     for s in &p.vt.frames {
         let Some(r) = snaps.get(&s.k) else { continue };
         if backlog_at_frame[&s.k] {
-            // long-count mode: the client is still working through the backlog
+            // the client may still be working through lines that arrived together (one line per
+            // main-loop iteration): judged once it must have caught up
+            out.probe("frame_skipped_while_catching_up");
             continue;
         }
         if sc.bulk > 0 {
